@@ -552,6 +552,16 @@ pub fn gen_instance(rng: &mut Rng, schema: &Value, defs: &Defs, depth: u32) -> O
     Some(match ty {
         "null" => Value::Null,
         "boolean" => json!(rng.chance(1, 2)),
+        "string" if matches!(o.get("format").and_then(|f| f.as_str()), Some("uuid" | "date-time" | "date" | "ip" | "ipv4")) => {
+            let pool: &[&str] = match o.get("format").and_then(|f| f.as_str()) {
+                Some("uuid") => &["123e4567-e89b-12d3-a456-426614174000", "00000000-0000-0000-0000-000000000000"],
+                Some("date-time") => &["2024-03-01T12:30:00Z", "1999-12-31T23:59:59Z"],
+                Some("date") => &["2024-03-01", "1970-01-01"],
+                Some("ip") => &["192.168.1.7", "::1", "10.0.0.1"],
+                _ => &["10.0.0.1", "127.0.0.1"],
+            };
+            json!(*rng.pick(pool))
+        }
         "string" => {
             let max = o.get("maxLength").and_then(|m| m.as_u64()).unwrap_or(8) as usize;
             let s: &str = *rng.pick(&["", "a", "hello", "zz top"]);
